@@ -575,7 +575,9 @@ func mergeArray(dest map[string]interface{}, src reflect.Value) error {
 // Spread (golint)
 func Spread(v reflect.Value) (interface{}, error) {
 
-	var results []interface{}
+	// An empty result is an empty array (not a nil slice,
+	// which encodes as the JSON value null).
+	results := []interface{}{}
 
 	switch {
 	case jtypes.IsMap(v):
